@@ -1087,7 +1087,100 @@ def destination_check(run, info):
     shutil.rmtree(base, ignore_errors=True)
 
 
+def _first_call_child(gen, opt, val, base):
+    """fresh interpreter: ONE call with a single option toggled (or none), then a call with default options; prints the
+    sha1 of every file of the default call.  What the first call of a process leaves behind (a probe cached at module level,
+    a default dict updated in place) shows in the second."""
+    import hashlib
+    with quiet():
+        if gen == "attitude":
+            from cyecca.estimate.attitude import algorithms
+            eqs = algorithms.eqs()
+            call = lambda d, **o: algorithms.generate_code(eqs, d, **o)
+        elif gen == "generic":
+            from cyecca.models import mr_ref_traj
+            import cyecca.codegen as generic
+            ref = mr_ref_traj.derive_mr_ref_traj()
+            call = lambda d, **o: generic.generate_code({"mr_ref_traj": ref}, d, **o)
+        else:
+            mod = importlib.import_module(MODEL_MODULES[gen])
+            defined, called, filename = main_block_info(MODEL_MODULES[gen])
+            eqs = {}
+            for n in (called or defined):
+                eqs.update(getattr(mod, n)())
+            call = lambda d, **o: mod.generate_code(eqs, filename=(filename or gen + ".c"), dest_dir=d, **o)
+    out = {"first_error": None, "default_error": None, "files": {}}
+    d1 = os.path.join(base, "one"); d2 = os.path.join(base, "two")
+    os.makedirs(d1); os.makedirs(d2)
+    if opt != "-":
+        try:
+            with quiet():
+                call(d1, **{opt: (val == "1")})
+        except Exception as ex:     # noqa: a refused combination is judged by the row checks
+            out["first_error"] = f"{type(ex).__name__}: {str(ex)[-200:]}"
+    try:
+        with quiet():
+            call(d2)
+        for fn in sorted(os.listdir(d2)):
+            with open(os.path.join(d2, fn), "rb") as fh:
+                out["files"][fn] = hashlib.sha1(fh.read()).hexdigest()
+    except Exception as ex:     # noqa
+        out["default_error"] = f"{type(ex).__name__}: {(str(ex).strip().splitlines() or [''])[-1][-300:]}"
+    print("FIRSTCALL " + json.dumps(out))
+
+
+def first_call_histories(run, defaults, tier):
+    """spec/Codegen.tla FirstCalls: for every generator and every option, a FRESH process whose first call toggles that
+    option and whose second call uses the defaults -- the default artefact must be the one of a process that only made
+    the default call (sequence_check starts every history with a default call; a state that the FIRST call sets up is
+    invisible there)."""
+    import subprocess
+    import concurrent.futures as cf
+    jobs = []
+    for gen, dflt in defaults.items():
+        gen_ = gen
+        if gen_ not in ("attitude", "generic") and gen_ not in MODEL_MODULES:
+            continue
+        jobs.append((gen_, "-", "0"))
+        for k, v in dflt.items():
+            jobs.append((gen_, k, "0" if v else "1"))
+
+    def one(job):
+        base = tempfile.mkdtemp(prefix="fc_", dir=G["scratch"])
+        p = subprocess.run([sys.executable, "-m", "harness.checks.c09", "--first-call", job[0], job[1], job[2], base], capture_output=True, text=True,
+                           env=dict(os.environ), cwd="/verif", timeout=900)
+        shutil.rmtree(base, ignore_errors=True)
+        for ln in p.stdout.splitlines():
+            if ln.startswith("FIRSTCALL "):
+                return json.loads(ln[len("FIRSTCALL "):])
+        raise MachineryError(f"first-call history {job} did not run: {p.stderr[-400:]}")
+    with cf.ThreadPoolExecutor(12) as ex:
+        res = dict(zip(jobs, ex.map(one, jobs)))
+    n = 0
+    for (gen, k, v), r in res.items():
+        if k == "-":
+            continue
+        ref = res[(gen, "-", "0")]
+        n += 1
+        sname = {"attitude": "estimator", "generic": "mr_ref_traj"}.get(gen, gen)
+        if ref["default_error"] is None and r["default_error"] is not None:
+            run.violation(f"{sname}/generate/raises/default_after_first_call:{k}", f"in a fresh process a call with {k}={v == '1'} followed by a call with "
+                          f"default options: the default call fails ({r['default_error']}); alone it succeeds",
+                          {"kind": "sequence", "set": sname, "option": k, "first_call_error": r["first_error"]})
+        elif ref["default_error"] is None and r["files"] != ref["files"]:
+            diff = sorted(set(r["files"]) ^ set(ref["files"])) or [f for f in r["files"] if r["files"][f] != ref["files"].get(f)]
+            run.violation(f"{sname}/generate/state_leak/first_call:{k}", f"in a fresh process the default artefact written AFTER a first call with {k}={v == '1'} "
+                          f"differs from the default artefact of a process that made only the default call (differs: {diff[:4]})",
+                          {"kind": "sequence", "set": sname, "option": k})
+    run.count("first_call_histories", n)
+    if n < 8:
+        raise MachineryError(f"first-call histories: only {n} ran")
+
+
 def main():
+    if "--first-call" in sys.argv:
+        i = sys.argv.index("--first-call")
+        return _first_call_child(*sys.argv[i + 1:i + 5])
     tier = sys.argv[1] if len(sys.argv) > 1 else "quick"
     run = Run(PID, tier, level="translation_validation")
     scratch = os.path.join(run.workdir, "gen")
@@ -1101,6 +1194,7 @@ def main():
             return replay(run, info, rp)
         print("replay: findings about the shipped entry points are re-evaluated by the full check")
     sequence_check(run, info, defaults)
+    first_call_histories(run, defaults, tier)
     destination_check(run, info)
 
     # ---- TLC on the configuration model, instantiated with the repository's export lists
